@@ -115,3 +115,67 @@ impl ObjectStore for SlowStore {
         self.inner.copy_if_not_exists(from, to).await
     }
 }
+
+// ---------------------------------------------------------------------------
+// FlakyBodyStore: whole-object downloads arrive in pieces, and every `every`-th one is cut
+// after some bytes with an error in the body stream (the request itself succeeded).
+
+#[derive(Debug)]
+pub struct FlakyBodyStore {
+    pub inner: std::sync::Arc<dyn ObjectStore>,
+    pub every: u64,
+    pub counter: std::sync::atomic::AtomicU64,
+    pub cuts: std::sync::atomic::AtomicU64,
+}
+
+impl std::fmt::Display for FlakyBodyStore {
+    fn fmt(&self, f: &mut std::fmt::Formatter<'_>) -> std::fmt::Result {
+        write!(f, "FlakyBodyStore(every {})", self.every)
+    }
+}
+
+#[async_trait]
+impl ObjectStore for FlakyBodyStore {
+    async fn put_opts(&self, location: &OPath, payload: PutPayload, opts: PutOptions) -> object_store::Result<PutResult> {
+        self.inner.put_opts(location, payload, opts).await
+    }
+    async fn put_multipart_opts(&self, location: &OPath, opts: PutMultipartOpts) -> object_store::Result<Box<dyn MultipartUpload>> {
+        self.inner.put_multipart_opts(location, opts).await
+    }
+    async fn get_opts(&self, location: &OPath, options: GetOptions) -> object_store::Result<GetResult> {
+        let whole = options.range.is_none() && !options.head;
+        let r = self.inner.get_opts(location, options).await?;
+        if !whole {
+            return Ok(r);
+        }
+        let n = self.counter.fetch_add(1, std::sync::atomic::Ordering::Relaxed);
+        let cut = self.every > 0 && n % self.every == self.every - 1;
+        let meta = r.meta.clone();
+        let range = r.range.clone();
+        let attributes = r.attributes.clone();
+        let bytes = r.bytes().await?;
+        // pieces of 1 KiB; a cut download delivers about half of them, then an error
+        let mut pieces: Vec<object_store::Result<bytes::Bytes>> = bytes.chunks(1024).map(|c| Ok(bytes::Bytes::copy_from_slice(c))).collect();
+        if cut && pieces.len() >= 2 {
+            self.cuts.fetch_add(1, std::sync::atomic::Ordering::Relaxed);
+            pieces.truncate(pieces.len() / 2);
+            pieces.push(Err(object_store::Error::Generic { store: "FlakyBodyStore", source: "connection reset in the middle of the body".into() }));
+        }
+        Ok(GetResult { payload: object_store::GetResultPayload::Stream(Box::pin(futures::stream::iter(pieces))), meta, range, attributes })
+    }
+    async fn delete(&self, location: &OPath) -> object_store::Result<()> {
+        self.inner.delete(location).await
+    }
+    fn list(&self, prefix: Option<&OPath>) -> BoxStream<'_, object_store::Result<ObjectMeta>> {
+        self.inner.list(prefix)
+    }
+    async fn list_with_delimiter(&self, prefix: Option<&OPath>) -> object_store::Result<ListResult> {
+        self.inner.list_with_delimiter(prefix).await
+    }
+    async fn copy(&self, from: &OPath, to: &OPath) -> object_store::Result<()> {
+        self.inner.copy(from, to).await
+    }
+    async fn copy_if_not_exists(&self, from: &OPath, to: &OPath) -> object_store::Result<()> {
+        self.inner.copy_if_not_exists(from, to).await
+    }
+}
